@@ -61,8 +61,9 @@ SPINNERS = {
     "getter-loop": ("var og = { get p(){ while(true){ hit(); } } }; og.p;", "loop"),
     "valueof-loop": ("var ov = { valueOf: function(){ while(true){ hit(); } } }; ov + 1;", "loop"),
     # many short-lived nested interpreters: no single one runs long enough to reach its own poll
-    "eval-tree": ("var dp = 0; var ft = function(){ hit(); if (dp < 30) { dp++; for (var i = 0; i < 4; i++) eval('ft()'); dp--; } }; ft();", "loop"),
-    "function-ctor-tree": ("var dq = 0; var fu = function(){ hit(); if (dq < 30) { dq++; for (var i = 0; i < 4; i++) new Function('fu()')(); dq--; } }; fu();", "loop"),
+    # (defined through the global eval so that the names are global wherever the spinner is placed)
+    "eval-tree": ("eval(\"var dp = 0; var ft = function(){ hit(); if (dp < 30) { dp++; for (var i = 0; i < 4; i++) eval('ft()'); dp--; } };\"); ft();", "loop"),
+    "function-ctor-tree": ("eval(\"var dq = 0; var fu = function(){ hit(); if (dq < 30) { dq++; for (var i = 0; i < 4; i++) new Function('fu()')(); dq--; } };\"); fu();", "loop"),
     "eval-storm": ("for(;;){ hit(); eval('1 + 1'); }", "loop"),
     "callback-recursion": ("var cr = function(n){ if (n > 150) { while(true){ hit(); } } [1].forEach(function(){ cr(n + 1); }); }; cr(0);", "loop"),
 }
@@ -234,7 +235,7 @@ def judge(chk, case, tags, res, virtual):
         chk.violation("worker-crash|%s|%s" % (tags[1], tags[0]), casej, "TimeLimitError", repr(res), sub="deadline")
         return
     out, hit, reads, cpu, gap = res
-    min_hits = 1 if "regex" in tags[0] else 3
+    min_hits = 1 if "regex" in tags[0] else (8 if "tree" in tags[0] else 3)
     if hit < min_hits:
         chk.classify("trivial (spinner not reached)")
         if out[0] == "exc" and not out[1]["family"]:
